@@ -194,6 +194,7 @@ func prov(v ssa.Value, seen map[ssa.Value]bool, out Origins) {
 	case *ssa.Call:
 		if f := x.Call.StaticCallee(); f != nil {
 			out["call:"+f.String()] = true
+			provThroughCall(x, -1, seen, out)
 		} else if x.Call.IsInvoke() {
 			out["call:"+x.Call.Value.Type().String()+"."+x.Call.Method.Name()] = true
 			prov(x.Call.Value, seen, out)
@@ -219,6 +220,9 @@ func prov(v ssa.Value, seen map[ssa.Value]bool, out Origins) {
 		prov(x.X, seen, out)
 		prov(x.Index, seen, out)
 	case *ssa.Extract:
+		if call, ok := x.Tuple.(*ssa.Call); ok && call.Call.StaticCallee() != nil {
+			provThroughCall(call, x.Index, seen, out)
+		}
 		prov(x.Tuple, seen, out)
 	case *ssa.Convert:
 		prov(x.X, seen, out)
@@ -275,6 +279,97 @@ func prov(v ssa.Value, seen map[ssa.Value]bool, out Origins) {
 	default:
 		out[fmt.Sprintf("other:%T", v)] = true
 	}
+}
+
+// ModulePrefix is the import-path prefix of the code under analysis; calls to
+// functions below it are looked through by Prov (helpers extracted by a
+// refactoring must not change what a value is made of).
+var ModulePrefix = "github.com/semafind/semadb"
+
+const provInlineDepth = 3
+
+var provDepth = 0
+
+// provThroughCall adds the origins of what a module callee actually returns
+// (result #idx, or every non-error result for -1): fields, constants, globals
+// and calls it reads itself, with elements of its slice parameters mapped to
+// elements of the arguments. The caller still walks every argument, so the
+// result is a superset of the intraprocedural slice.
+// It reports false when the callee is not a module function with a body.
+func provThroughCall(call *ssa.Call, idx int, seen map[ssa.Value]bool, out Origins) bool {
+	f := call.Call.StaticCallee()
+	if f == nil || f.Blocks == nil || provDepth >= provInlineDepth {
+		return false
+	}
+	pk := f.Pkg
+	if pk == nil && f.Origin() != nil {
+		pk = f.Origin().Pkg
+	}
+	if pk == nil && f.Parent() != nil {
+		return false
+	}
+	if pk == nil || !strings.HasPrefix(pk.Pkg.Path(), ModulePrefix) {
+		return false
+	}
+	provDepth++
+	defer func() { provDepth-- }()
+	inner := Origins{}
+	iseen := map[ssa.Value]bool{}
+	nret := 0
+	for _, b := range f.Blocks {
+		if b == f.Recover {
+			continue
+		}
+		ret, ok := b.Instrs[len(b.Instrs)-1].(*ssa.Return)
+		if !ok {
+			continue
+		}
+		for i := range ret.Results {
+			if idx >= 0 && i != idx {
+				continue
+			}
+			if idx < 0 && ret.Results[i].Type().String() == "error" && len(ret.Results) > 1 {
+				continue
+			}
+			nret++
+			prov(ReturnOperand(ret, i), iseen, inner)
+		}
+	}
+	if nret == 0 {
+		return false
+	}
+	out["inlined:"+f.String()] = true
+	params := map[string]int{}
+	for i, p := range f.Params {
+		params[p.Name()] = i
+	}
+	for k := range inner {
+		name, wrap := "", ""
+		switch {
+		case strings.HasPrefix(k, "param:"):
+			name = strings.TrimPrefix(k, "param:")
+		case strings.HasPrefix(k, "elem(param:") && strings.HasSuffix(k, ")"):
+			name, wrap = strings.TrimSuffix(strings.TrimPrefix(k, "elem(param:"), ")"), "elem"
+		default:
+			out[k] = true
+			continue
+		}
+		i, ok := params[name]
+		if !ok || i >= len(call.Call.Args) {
+			out[k] = true
+			continue
+		}
+		if wrap == "" {
+			continue // the caller walks every argument itself
+		} else {
+			ao := Origins{}
+			prov(call.Call.Args[i], map[ssa.Value]bool{}, ao)
+			for ak := range ao {
+				out["elem("+ak+")"] = true
+			}
+		}
+	}
+	return true
 }
 
 // ---- constants
